@@ -560,7 +560,6 @@ def getMaxComponentDepth(
     if rec_stack is None:
         rec_stack = []
 
-    assert glyph.name not in visited
     visited.add(glyph.name)
     rec_stack.append(glyph.name)
 
@@ -572,16 +571,17 @@ def getMaxComponentDepth(
             baseGlyph = glyphSet[component.baseGlyph]
         except KeyError:
             continue
-        if component.baseGlyph not in visited:
-            componentDepth = getMaxComponentDepth(
-                baseGlyph, glyphSet, initialMaxComponentDepth, visited, rec_stack
-            )
-            maxComponentDepth = max(maxComponentDepth, componentDepth)
-        elif component.baseGlyph in rec_stack:
+        if component.baseGlyph in rec_stack:
             raise InvalidFontData(
                 f"cyclical component reference:"
                 f" {' -> '.join(rec_stack)} => {component.baseGlyph}"
             )
+        # a base glyph that was reached before through another branch must be
+        # descended into again: it may sit deeper on this path
+        componentDepth = getMaxComponentDepth(
+            baseGlyph, glyphSet, initialMaxComponentDepth, visited, rec_stack
+        )
+        maxComponentDepth = max(maxComponentDepth, componentDepth)
 
     rec_stack.pop()
 
